@@ -122,6 +122,19 @@ theorem other_fwd_source (s : Node) (e : Event) (c : Nat) (f : Fwd) (h : (c, f) 
           obtain ⟨g, hg, he⟩ := h
           cases he
           exact ⟨x, hx, Or.inr (closeFwd_mem hg)⟩
+  | closeCut d k =>
+    simp only [step, stepClose] at h
+    split at h
+    · simp at h
+    · rename_i x hx
+      split at h
+      · simp at h
+      · split at h
+        · simp at h
+        · simp only [List.mem_map] at h
+          obtain ⟨g, hg, he⟩ := h
+          cases he
+          exact ⟨x, hx, Or.inr (closeFwd_mem (List.mem_of_mem_take hg))⟩
   | leaderMsg d msg early =>
     simp only [step, stepLeaderMsg] at h
     split at h
